@@ -80,7 +80,7 @@ def make_landscape(spec, D):
         # delta being the next symbol of the script; memoised so it is a function.
         script = list(spec["script"])
         deltas = {"G": float(spec.get("big", 10.0)), "g": float(spec.get("tiny", 1e-5)),
-                  "t": 0.0, "l": -float(spec.get("loss", 1.0))}
+                  "m": float(spec.get("medium", 2e-3)), "t": 0.0, "l": -float(spec.get("loss", 1.0))}
         state = {"memo": {}, "best": float(spec.get("start", 100.0)), "i": 0}
         cyc = bool(spec.get("cycle", True))
 
